@@ -24,12 +24,14 @@
       retrievable and equal in both runs; 'more' ⇔ N > capacity ⇔ something was dropped; the stored contacts / headers
       of the smaller array are a prefix of the larger one's; the identity list likewise (its last value is retrievable
       only when nothing was dropped: GetPAI has no scratch-slot fallback — stated as such).
-  Not proved: URI parameter / header list capacities (stand-alone parsers; see the list-wrapper file if present);
+  URI parameter / header list capacities: `capacity_uriparams`, `capacity_urihdrs`.
+  Not proved:
   while a parse is suspended INSIDE a Contact line the "last contact" read returns the half-parsed value (true of the
   code as well; the theorems state the condition). The signature's truncation indication is proved in C19.
 -/
 import Sipsp.Proofs.CapacityMsg
 import Sipsp.Proofs.CapacityExtra
+import Sipsp.Proofs.UriListsL
 
 namespace Sipsp.C13
 open Sipsp
@@ -120,6 +122,17 @@ theorem capacity_identities : type_of% @capacity_pais := @capacity_pais
 theorem identities_more_prefix : type_of% @PaDone.more_prefix := @PaDone.more_prefix
 theorem identities_first_last : type_of% @PaDone.first_last := @PaDone.first_last
 theorem identities_in_message : type_of% @MsgDone.pais := @MsgDone.pais
+
+
+/-! ### URI parameter / header lists (stand-alone parsers) -/
+
+/-- two runs with arrays of different capacity: same offset, value count and verdict; the result lists are related
+    again (same N, type flags, current element; stored elements agree wherever both arrays have room) -/
+theorem capacity_uriparams : type_of% @parseAllURIParams_rel := @parseAllURIParams_rel
+theorem capacity_urihdrs : type_of% @parseAllURIHdrs_rel := @parseAllURIHdrs_rel
+theorem uri_lists_new_related (k1 k2 : Nat) :
+    PlRel { params := Array.replicate k1 {} } { params := Array.replicate k2 {} } ∧
+    HlRel { hdrs := Array.replicate k1 {} } { hdrs := Array.replicate k2 {} } := ⟨PlRel_new k1 k2, HlRel_new k1 k2⟩
 
 
 /-! ### non-vacuity: capacity 0 versus capacity 3 on a two-value Contact line -/
